@@ -144,8 +144,8 @@ func (r *Runner) lightBigUndo(l *Line) *World {
 		return w
 	}
 	lc.H = newH
-	nBig := w.n + uint64(K)
-	Rprev := treeRows(w.n)
+	nBig := w.big(w.n + uint64(K))
+	Rprev := w.rows(w.n)
 	var undone []Hash
 	pan = protect(func() {
 		undone, err = lc.P.Undo(uint64(K), nBig, ba.targets, ba.dels, lc.H, ud.ToDestroy, utreexo.Proof{Targets: ba.targets, Proof: ba.proof})
@@ -167,15 +167,15 @@ func (r *Runner) lightBigUndo(l *Line) *World {
 }
 
 func specUpdateData(w *World, st *Step) utreexo.UpdateData {
-	Rpre := treeRows(st.Upd.Prev)
-	Rpost := treeRows(st.Upd.Prev + uint64(st.K))
-	ud := utreexo.UpdateData{PrevNumLeaves: st.Upd.Prev, ToDestroy: w.encTargets(st.Upd.Td, Rpost)}
+	Rpre := w.rows(st.Upd.Prev)
+	Rpost := w.rows(st.Upd.Prev + uint64(st.K))
+	ud := utreexo.UpdateData{PrevNumLeaves: w.big(st.Upd.Prev), ToDestroy: w.encTargets(st.Upd.Td, Rpost)}
 	for _, x := range st.Upd.Ndel {
-		ud.NewDelPos = append(ud.NewDelPos, enc(x.RI(), Rpre))
+		ud.NewDelPos = append(ud.NewDelPos, w.encR(x.RI(), Rpre))
 		ud.NewDelHash = append(ud.NewDelHash, w.sy.H(x.Hash))
 	}
 	for _, x := range st.Upd.Nadd {
-		ud.NewAddPos = append(ud.NewAddPos, enc(x.RI(), Rpost))
+		ud.NewAddPos = append(ud.NewAddPos, w.encR(x.RI(), Rpost))
 		ud.NewAddHash = append(ud.NewAddHash, w.sy.H(x.Hash))
 	}
 	return ud
@@ -194,7 +194,7 @@ func (w *World) compareHolding(in *Inst, lc *lightClient, st *Step, R uint8, pro
 		got = append(got, pairT{w.sy.T(lc.H[i]), lc.P.Targets[i]})
 	}
 	for i, s := range st.Held {
-		exp = append(exp, pairT{leafTerm(s), enc(st.Cp.T[i].RI(), R)})
+		exp = append(exp, pairT{leafTerm(s), w.encR(st.Cp.T[i].RI(), R)})
 	}
 	sortPairs(got)
 	sortPairs(exp)
@@ -212,7 +212,7 @@ func (w *World) compareHolding(in *Inst, lc *lightClient, st *Step, R uint8, pro
 func (w *World) lightBlock(in *Inst, lc *lightClient, st *Step) {
 	props := []string{"C07"}
 	ba := w.blockArgs(st)
-	R2 := treeRows(w.n + uint64(st.K))
+	R2 := w.rows(w.n + uint64(st.K))
 	lc.stumps = append(lc.stumps, utreexo.Stump{Roots: append([]Hash{}, lc.S.Roots...), NumLeaves: lc.S.NumLeaves})
 
 	// 1. verifier-state update
@@ -297,8 +297,8 @@ func (w *World) lightBlock(in *Inst, lc *lightClient, st *Step) {
 				[]any{fp.Targets, w.sy.Ts(fp.Proof)}, []any{lc.P.Targets, w.sy.Ts(lc.P.Proof)})
 		}
 	}
-	if got := w.sy.Ts(lc.S.Roots); !eqStrs(got, st.Post) {
-		w.fail([]string{"C01"}, in, "roots", "stump roots", st.Post, got)
+	if got := w.sy.Ts(lc.S.Roots); !eqStrs(got, w.withHigh(st.Post)) {
+		w.fail([]string{"C01"}, in, "roots", "stump roots", w.withHigh(st.Post), got)
 	}
 }
 
@@ -322,8 +322,8 @@ func (w *World) lightUndo(in *Inst, lc *lightClient, st *Step) {
 	w.ctx["C08"] = true
 	prevN := w.nStk[len(w.nStk)-1]
 	w.nStk = w.nStk[:len(w.nStk)-1]
-	Rprev := treeRows(prevN)
-	Rcur := treeRows(w.n)
+	Rprev := w.rows(prevN)
+	Rcur := w.rows(w.n)
 	dels := w.leafHashes(st.D)
 	targets := w.encTargets(st.Pf.T, Rprev)
 	proofH := w.sy.Hs(st.Pf.P)
@@ -339,7 +339,7 @@ func (w *World) lightUndo(in *Inst, lc *lightClient, st *Step) {
 	var newH []Hash
 	var err error
 	pan := protect(func() {
-		newH, err = lc.P.Undo(uint64(st.K), w.n, dl, dh, ch, td, utreexo.Proof{Targets: bt, Proof: bp})
+		newH, err = lc.P.Undo(uint64(st.K), w.big(w.n), dl, dh, ch, td, utreexo.Proof{Targets: bt, Proof: bp})
 	})
 	g.end()
 	// the verifier state is rolled back by restoring the saved value
